@@ -36,6 +36,9 @@ CLAIMS = {
  'C11': dict(technique="runtime monitoring: compilation histories replayed in fresh interpreters under several hash seeds; an offline checker compares the SHA-256 of every accepted output with the design's fresh-interpreter output",
              text="Exploration: all (rejected, accepted) and ordered (accepted, accepted) pairs over a pool of 17+ accepted / 17 rejected designs failing at every compiler stage, repetitions, reserved-name leakage, random sequences, hash seeds.",
              ref="2 C11"),
+ 'C14': dict(technique="runtime monitoring: compiled Fifo/Stack wrappers executed by vsim against deque/list models; online comparison per clock and an offline FIFO-order / occupancy checker over recorded push/pop events with unique ids",
+             text="Exploration: capacities 2..8 (power of two and not), one-context closure over all legal command sequences (2-bit data), two-context runs over tx/rx delay settings with unique ids, both stack modes.",
+             ref="2 C14"),
  'C13': dict(technique="runtime monitoring: fresh interpreter per creation order with post-hoc assertions on identity / issubclass / isinstance of the lazily created classes and on view write-through; nested views in emitted logic executed by vsim",
              text="Exploration: seeded creation orders (widths 1..40, arrays, 4 qualifiers, 3 directions) in fresh processes; random nested view chains as read sources and write targets of compiled entities.",
              ref="2 C13"),
